@@ -157,6 +157,7 @@ impl CombSpec {
                 1 => "[children without drop glue]",
                 2 => "[values without drop glue]",
                 3 => "[errors without drop glue]",
+                5 => "[zero-sized values]",
                 4 => "[heterogeneous element types: tracked, niche without destructor, plain, wide with destructor]",
                 _ => "",
             },
